@@ -2781,6 +2781,7 @@ def fill_none(array, value, axis=ak._util.MISSING, highlevel=True, behavior=None
     # Convert value type to appropriate layout
     if isinstance(value, (bool, numbers.Number, np.bool_, np.number)) or (
         isinstance(value, np.ndarray)
+        and value.ndim == 0
         and issubclass(value.dtype.type, (np.bool_, np.number))
     ):
         valuelayout = ak.operations.convert.to_layout(
